@@ -23,6 +23,9 @@ pub struct Scenario {
     pub drop_server_early: bool,
     #[serde(default)]
     pub spurious: bool,
+    /// virtual instants (ns) at which the controller reports the library thread count (C20)
+    #[serde(default)]
+    pub probes_ns: Vec<u64>,
 }
 
 fn default_horizon() -> u64 {
@@ -87,6 +90,9 @@ pub struct Plan {
     pub to_eof: bool,
     #[serde(default)]
     pub delay_ns: u64,
+    /// do not start before the controller has opened this phase (answer-after-drop, C20)
+    #[serde(default)]
+    pub wait_phase: u64,
     pub ans: Ans,
 }
 
